@@ -73,20 +73,29 @@ impl World {
         };
         World { ledger, account, pk, badges, royalty_package }
     }
-    fn new_resource(&mut self) -> ResourceAddress {
-        let manifest = ManifestBuilder::new()
-            .lock_fee_from_faucet()
-            .create_fungible_resource(
-                OwnerRole::Updatable(rule!(require(self.badges[0]))),
-                true,
-                0,
-                FungibleResourceRoles::default(),
-                metadata!(),
-                None,
-            )
-            .build();
-        let receipt = self.ledger.execute_manifest(manifest, vec![]);
-        receipt.expect_commit(true).new_resource_addresses()[0]
+    /// The object under attack: a resource or an account (different native blueprints, same metadata and
+    /// role-assignment modules); owner role updatable by badge 0 or fixed to it (= locked from creation);
+    /// optionally metadata entries that are created locked (k3 with a value, k2 empty).
+    fn new_object(&mut self, kind: u64, fixed_owner: bool, locked_at_creation: bool) -> GlobalAddress {
+        let rule = rule!(require(self.badges[0]));
+        let owner = if fixed_owner { OwnerRole::Fixed(rule) } else { OwnerRole::Updatable(rule) };
+        if kind == 0 {
+            let md = if locked_at_creation {
+                metadata! { init { "k3" => 7u64, locked; "k1" => 3u64, updatable; } }
+            } else {
+                metadata!()
+            };
+            let manifest = ManifestBuilder::new()
+                .lock_fee_from_faucet()
+                .create_fungible_resource(owner, true, 0, FungibleResourceRoles::default(), md, None)
+                .build();
+            let receipt = self.ledger.execute_manifest(manifest, vec![]);
+            receipt.expect_commit(true).new_resource_addresses()[0].into()
+        } else {
+            let manifest = ManifestBuilder::new().lock_fee_from_faucet().new_account_advanced(owner, None).build();
+            let receipt = self.ledger.execute_manifest(manifest, vec![]);
+            receipt.expect_commit(true).new_component_addresses()[0].into()
+        }
     }
     fn new_component(&mut self) -> Option<ComponentAddress> {
         let pkg = self.royalty_package?;
@@ -105,7 +114,7 @@ impl World {
         }
         panic!("unexpected owner rule {:?}", r)
     }
-    fn observe(&self, res: ResourceAddress, comp: Option<ComponentAddress>) -> Obs {
+    fn observe(&self, res: GlobalAddress, comp: Option<ComponentAddress>) -> Obs {
         let db = self.ledger.substate_db();
         let reader = SystemDatabaseReader::new(db);
         let mpart = reader.get_partition_of_collection(res.as_node_id(), ModuleId::Metadata, MetadataCollection::EntryKeyValue.collection_index()).unwrap();
@@ -174,7 +183,7 @@ impl World {
             owner_locked,
         }
     }
-    fn exec(&mut self, res: ResourceAddress, comp: Option<ComponentAddress>, proofs: &[usize], op: &Op) -> String {
+    fn exec(&mut self, res: GlobalAddress, comp: Option<ComponentAddress>, proofs: &[usize], op: &Op) -> String {
         let mut b = ManifestBuilder::new().lock_fee_from_faucet();
         for p in proofs {
             b = b.create_proof_from_account_of_amount(self.account, self.badges[*p], dec!(1));
@@ -254,7 +263,9 @@ struct Case {
 }
 
 fn run_case(w: &mut World, rng: &mut Rng, len: usize) -> Case {
-    let res = w.new_resource();
+    let kind = rng.below(3) / 2; // 2/3 resources, 1/3 accounts
+    let fixed_owner = rng.chance(1, 5);
+    let res = w.new_object(kind, fixed_owner, rng.chance(1, 3));
     let comp = w.new_component();
     let init = w.observe(res, comp);
     let mut obs = init.clone();
@@ -357,7 +368,8 @@ fn main() {
     let mut report = Report::new(
         "C51",
         args.seed,
-        "per case a fresh resource (owner role updatable by a badge; metadata roles = owner) and a fresh royalty-enabled component: \
+        "per case a fresh resource or account (owner role updatable by a badge, or fixed = locked from creation; metadata roles = owner; \
+         on a third of the resources metadata entries created locked) and a fresh royalty-enabled component: \
          10..40 calls of metadata set/remove/lock over 4 keys (one hot), set_royalty/lock_royalty over 2 methods, set_owner_role / \
          lock_owner_role, by callers proving the current owner badge, no badge, a random badge or all badges; \
          non-trivial = a committed lock followed by at least one refused write on the locked item; distinct by canonical text",
